@@ -93,10 +93,13 @@ type shrunkCase struct {
 var caseShrinkMemo = map[string]shrunkCase{}
 
 // shrinkCase normalises a violating lattice point to its minimal form: the first point, in the
-// simplest-first order of (fee, exit fee, reserve a, reserve b), with the same pool type, operation,
+// simplest-first order of (fee, exit fee, reserve at position I, reserve at position J), with the same pool type, operation, positions,
 // weights / scaling factors, further reserves and trade size that raises the same assertion.
 func shrinkCase(c Case, assertion string) shrunkCase {
-	key := fmt.Sprintf("%s|%s|%s|%v|%v|%v|%s", assertion, c.Pool, c.Op, c.Weights, c.Scaling, c.Reserves[2:], c.Size)
+	pi, pj := c.pos()
+	others := append([]string{}, c.Reserves...)
+	others[pi], others[pj] = "*", "*"
+	key := fmt.Sprintf("%s|%s|%s|%v|%v|%v|%s|%d>%d", assertion, c.Pool, c.Op, c.Weights, c.Scaling, others, c.Size, pi, pj)
 	if m, ok := caseShrinkMemo[key]; ok {
 		return m
 	}
@@ -104,20 +107,35 @@ func shrinkCase(c Case, assertion string) shrunkCase {
 	if c.ExitFee != "" && c.ExitFee != "0" {
 		exitFees = exitFeeLattice
 	}
-	for _, fee := range feeLattice {
-		for _, xf := range exitFees {
-			for _, ra := range reserveLattice {
-				for _, rb := range reserveLattice {
-					cand := c
-					cand.Fee, cand.ExitFee = fee, xf
-					cand.Reserves = append([]string{ra.String(), rb.String()}, c.Reserves[2:]...)
-					ps := &probeSink{}
-					evalCase(ps, cand)
-					for _, v := range ps.viols {
-						if v.assertion == assertion {
-							m := shrunkCase{cand, v.detail}
-							caseShrinkMemo[key] = m
-							return m
+	// reserves of the positions the operation does not act on: first the simplest value everywhere, then
+	// as given
+	simplest := append([]string{}, c.Reserves...)
+	for k := range simplest {
+		if k != pi && k != pj {
+			simplest[k] = "1"
+		}
+	}
+	variants := [][]string{simplest, c.Reserves}
+	if len(c.Reserves) == 2 {
+		variants = variants[1:]
+	}
+	for _, base := range variants {
+		for _, fee := range feeLattice {
+			for _, xf := range exitFees {
+				for _, ra := range reserveLattice {
+					for _, rb := range reserveLattice {
+						cand := c
+						cand.Fee, cand.ExitFee = fee, xf
+						cand.Reserves = append([]string{}, base...)
+						cand.Reserves[pi], cand.Reserves[pj] = ra.String(), rb.String()
+						ps := &probeSink{}
+						evalCase(ps, cand)
+						for _, v := range ps.viols {
+							if v.assertion == assertion {
+								m := shrunkCase{cand, v.detail}
+								caseShrinkMemo[key] = m
+								return m
+							}
 						}
 					}
 				}
@@ -287,6 +305,9 @@ func buildItems(thorough bool) []workItem {
 		}
 	}
 
+	// ---- multi-asset faces: every ordered denom pair / every denom position
+	multiItems(thorough, add)
+
 	// ---- part 2: sequences
 	items = append(items, seqItems(thorough)...)
 
@@ -304,4 +325,197 @@ func buildItems(thorough bool) []workItem {
 		return items[i].name < items[j].name
 	})
 	return items
+}
+
+// ---------------------------------------------------------------------------------------------
+// multi-asset faces. The two-asset lattice above walks all 81 reserve pairs; here the reserve axis is
+// reduced to a few stated profiles and instead EVERY ordered (tokenIn, tokenOut) denom pair and EVERY
+// denom position of 3- and 4-asset pools (thorough: also 5 and 8) is exercised, with scaling-factor
+// vectors in which every position takes every lattice value.
+
+var multiSizesQuick = []string{"1u", "1e-6", "1e-3", "0.1", "1/3", "0.9", "1.5"}
+
+func cyc(vals []*big.Int, n, shift int) []*big.Int {
+	out := make([]*big.Int, n)
+	for i := range out {
+		out[i] = vals[(i+shift)%len(vals)]
+	}
+	return out
+}
+
+// scaling-factor vectors: n=3 all vectors over the lattice values (quick {1,10,1e6}, thorough also 1e12);
+// n>=4 a covering set (cyclic shifts of the lattice and of its reverse): every position takes every value.
+func scalingVectors(n int, thorough bool) [][]uint64 {
+	vals := []uint64{1, 10, 1000000}
+	if thorough {
+		vals = scalingLattice
+	}
+	var out [][]uint64
+	if n == 3 {
+		for _, a := range vals {
+			for _, b := range vals {
+				for _, c := range vals {
+					out = append(out, []uint64{a, b, c})
+				}
+			}
+		}
+		return out
+	}
+	base := scalingLattice
+	rev := []uint64{base[3], base[2], base[1], base[0]}
+	for _, b := range [][]uint64{base, rev} {
+		for sh := 0; sh < 4; sh++ {
+			v := make([]uint64, n)
+			for i := range v {
+				v[i] = b[(i+sh)%4]
+			}
+			out = append(out, v)
+		}
+	}
+	return out
+}
+
+// stableswap reserve profiles, given in scaled terms so that every pool is valid: reserve_i = profile_i *
+// scalingFactor_i (+ a non-divisible remainder), plus one raw profile (1e12 units everywhere, so the scaled
+// reserves differ by the scaling factors themselves).
+func stableProfiles(sf []uint64) [][]*big.Int {
+	n := len(sf)
+	scaled := [][]*big.Int{
+		cyc(mustInts("1000000", "3000001", "500000", "2000003"), n, 0),
+		cyc(mustInts("1000", "1000000000", "1000000", "10000001"), n, 0),
+		cyc(mustInts("1000000000000000000", "1000000000000", "1000000000000000000000000", "1000000000"), n, 0),
+	}
+	var out [][]*big.Int
+	for k, p := range scaled {
+		r := make([]*big.Int, n)
+		for i := range r {
+			r[i] = new(big.Int).Mul(p[i], new(big.Int).SetUint64(sf[i]))
+			if k == 0 && sf[i] > 1 {
+				r[i].Add(r[i], big.NewInt(3))
+			}
+		}
+		out = append(out, r)
+	}
+	raw := make([]*big.Int, n)
+	for i := range raw {
+		raw[i] = mustInts("1000000000000")[0]
+	}
+	return append(out, raw)
+}
+
+var balProfiles = [][]*big.Int{
+	mustInts("1000000", "1000000001", "1000000000000", "1000000000000000000", "1000", "1000000000000000000000000", "7", "1000000000000000000000000000000"),
+	mustInts("1000000000000000000", "1000", "1000000", "1", "1000000000000000000000000000000", "1000000000000", "1000000001", "7"),
+	mustInts("1000000000000", "1000000000000", "1000000000000", "1000000000000", "1000000000000", "1000000000000", "1000000000000", "1000000000000"),
+}
+
+func multiItems(thorough bool, add func(name string, cases func(emit func(Case)))) {
+	// ---- stableswap
+	ns := []int{3, 4}
+	if thorough {
+		ns = []int{3, 4, 5, 8}
+	}
+	fees := []string{"0", "0.003"}
+	sizes := multiSizesQuick
+	jsFees, jsSizes := []string{"0"}, []string{"1e-6", "1e-3", "0.1"}
+	if thorough {
+		fees, sizes = feeLattice, sizeLattice
+		jsFees, jsSizes = []string{"0", "0.003"}, []string{"1u", "1e-6", "1e-3", "0.1", "0.9", "1.5"}
+	}
+	exSizes := []string{"1e-3", "0.1", "1/3", "0.9", "1"}
+	for _, n := range ns {
+		for _, sf := range scalingVectors(n, thorough) {
+			for pk, prof := range stableProfiles(sf) {
+				n, sf, prof := n, sf, prof
+				add(fmt.Sprintf("multi/stable/%d/%v/p%d", n, sf, pk), func(emit func(Case)) {
+					base := Case{Pool: "stable", Reserves: strs(prof), Scaling: sf}
+					for i := 0; i < n; i++ {
+						for j := 0; j < n; j++ {
+							if i == j {
+								continue
+							}
+							for _, op := range []string{"swapOutGivenIn", "swapInGivenOut"} {
+								for _, fee := range fees {
+									for _, sz := range sizes {
+										c := base
+										c.Op, c.Fee, c.Size, c.I, c.J = op, fee, sz, i, j
+										emit(c)
+									}
+								}
+							}
+						}
+						j := (i + 1) % n
+						for _, fee := range jsFees {
+							for _, sz := range jsSizes {
+								c := base
+								c.Op, c.Fee, c.Size, c.I, c.J = "joinSingle", fee, sz, i, j
+								emit(c)
+							}
+						}
+						for _, fee := range fees[:2] {
+							for _, sz := range exSizes {
+								c := base
+								c.Op, c.Fee, c.Size, c.I, c.J = "exitSingleComposite", fee, sz, i, j
+								emit(c)
+							}
+						}
+					}
+					for _, op := range []string{"joinAllNoSwap", "exitProp"} {
+						for _, sz := range sizes {
+							c := base
+							c.Op, c.Fee, c.Size = op, "0", sz
+							emit(c)
+						}
+					}
+				})
+			}
+		}
+	}
+	// ---- balancer
+	wvs := [][]int64{{1, 2, 3}, {5, 4, 3, 2}}
+	if thorough {
+		wvs = append(wvs, weightVectors...)
+	}
+	for _, w := range wvs {
+		for pk, prof := range balProfiles {
+			w, prof := w, prof[:len(w)]
+			n := len(w)
+			add(fmt.Sprintf("multi/bal/%v/p%d", w, pk), func(emit func(Case)) {
+				base := Case{Pool: "bal", Reserves: strs(prof), Weights: w}
+				for _, fee := range feeLattice {
+					for _, sz := range sizeLattice {
+						for i := 0; i < n; i++ {
+							for j := 0; j < n; j++ {
+								if i == j {
+									continue
+								}
+								for _, op := range []string{"swapOutGivenIn", "swapInGivenOut"} {
+									c := base
+									c.Op, c.Fee, c.Size, c.I, c.J = op, fee, sz, i, j
+									emit(c)
+								}
+							}
+							j := (i + 1) % n
+							for _, op := range []string{"joinSingleTokenIn", "joinSingleSharesOut", "joinSingleSharesOutTrunc", "exitSingleTokenOut"} {
+								xfs := []string{"0"}
+								if op == "exitSingleTokenOut" {
+									xfs = exitFeeLattice
+								}
+								for _, xf := range xfs {
+									c := base
+									c.Op, c.Fee, c.ExitFee, c.Size, c.I, c.J = op, fee, xf, sz, i, j
+									emit(c)
+								}
+							}
+						}
+						for _, op := range []string{"joinAllNoSwap", "joinAll", "exitProp"} {
+							c := base
+							c.Op, c.Fee, c.Size = op, fee, sz
+							emit(c)
+						}
+					}
+				}
+			})
+		}
+	}
 }
